@@ -264,6 +264,25 @@ pub fn plan_attacker(w: &World, knobs: &Knobs, actor: &mut Actor, l: &Ledger) ->
                 flow.push((tx1(i), format!("attacker: {} with a position of another pool", n)));
             }
         }
+        _ if rng.chance(1, 3) => {
+            // a NEIGHBOURING array of the same pool (one array width below or above the right one, created first if need be) for
+            // one of the position's bounds: the tick is not in it, the deposit must be refused
+            let lower_side = rng.chance(1, 2);
+            let width = 88 * pi.keys.tick_spacing as i32;
+            let start = ta_start(if lower_side { p.lower } else { p.upper }, pi.keys.tick_spacing) + if rng.chance(1, 2) { width } else { -width };
+            let lo_ok = start >= ta_start(crate::gen::min_usable(pi.keys.tick_spacing), pi.keys.tick_spacing) && start <= crate::gen::max_usable(pi.keys.tick_spacing);
+            if lo_ok {
+                let neighbour = ix::pda_tick_array(&pi.keys.whirlpool, start);
+                let mut ixs: Vec<Ix> = Vec::new();
+                if !l.exists(&neighbour) {
+                    ixs.push(init_array_ix(knobs, rng, &pi.keys.whirlpool, &actor.wallet, start));
+                }
+                let (mut i, n) = honest(rng);
+                replace_key(&mut i, if lower_side { &la.ta_lower } else { &la.ta_upper }, &neighbour);
+                ixs.push(i);
+                flow.push((Tx { ixs }, format!("attacker: {} with the neighbouring tick array of the same pool", n)));
+            }
+        }
         _ if rng.chance(1, 2) => {
             // the array of ANOTHER pool with the same tick spacing at the same start index (created first if need be - anyone
             // may initialise arrays): every tick of the position exists in it, only the pool reference is wrong
